@@ -409,7 +409,11 @@ class World:
             self.seam.mode = "stub"  # (the method may have changed since the step was generated; see the scheduler)
             self.probe("real_solve_downgraded_builtin_integrator")
         ran_real = self.seam.mode == "real"
-        if fault == "cb_raise":
+        if fault == "interrupt_in_transcription":
+            # Ctrl-C while rockit is transcribing (only if this solve has to transcribe at all)
+            self.seam.interrupt_after = step.get("k", 0)
+            self.seam.next_fault = None
+        elif fault == "cb_raise":
             # the user's callback raises in the middle of a real solve
             act.hidden["cb_raise_at"] = step.get("at", 1)
             self.seam.next_fault = None
@@ -438,6 +442,13 @@ class World:
             self.seam.next_fault = None
             self.seam.mode = "stub"
             act.hidden["cb_raise_at"] = None
+            if fault == "interrupt_in_transcription":
+                fired = self.seam.interrupt_after is None
+                self.seam.interrupt_after = None
+                if fired:
+                    self.fault("interrupt_in_transcription")
+                    st["transcribed"] = False
+                fault = "interrupt_in_transcription" if fired else None
         if self.seam.reached > n0:
             st["transcribed"] = True
             st["ever"] = True
@@ -858,6 +869,10 @@ class Scheduler:
                 d["mode"] = "real"
             if r.random() < cfg["p_fault"]:
                 d["fault"] = G.pick(r, ["fail_before", "fail_after", "interrupt"])
+                if not st["transcribed"] and r.random() < 0.5:
+                    d["fault"] = "interrupt_in_transcription"
+                    d["k"] = r.randint(0, 60)
+                    d.pop("mode", None)
                 if sp.cb and d.get("mode") == "real" and r.random() < 0.6:
                     d["fault"] = "cb_raise"
                     d["at"] = r.randint(0, 2)
